@@ -22,7 +22,7 @@ let () =
   let hist_meta = ref "" in
   let step_no = ref 0 in
   let pre_lines = ref [] and cur_st = ref [] in
-  let cur_op = ref None and orc = ref [] and res = ref ("", "") and xs = ref [] and hs = ref [] and gen = ref "" and fault = ref false in
+  let cur_op = ref None and orc = ref [] and res = ref ("", "") and xs = ref [] and hs = ref [] and gen = ref "" and fault = ref false and qr = ref [] in
   let mismatches = ref 0 and checkfails = ref 0 in
   let report_mismatch proj m i =
     incr mismatches;
@@ -36,6 +36,23 @@ let () =
         let iclass, idetail = !res in
         bump ("op." ^ kind ^ "." ^ iclass);
         bump "steps";
+        if kind = "FUND" then () else
+        if kind = "QUERY" then begin
+          (try
+            let pre = build_state ~switch:!switch ~listeners:!listeners !pre_lines in
+            let verdict = Driver.check_query pre op_line iclass (List.rev !qr) in
+            bump "queries";
+            (match verdict with
+             | None -> ()
+             | Some (key, m, i) ->
+                 incr checkfails;
+                 Printf.printf "CHECK hist=%s step=%d prop=C16 checker=query op=[%s] detail=[%s model=(%s) impl=(%s)] %s\n" !hist !step_no op_line key m i !hist_meta);
+            Printf.printf "TAGS hist=%s step=%d query\n" !hist !step_no;
+            (* a query must not change anything *)
+            if List.sort compare !pre_lines <> List.sort compare (List.rev !cur_st) then
+              report_mismatch "query" "state unchanged" "state changed by a query"
+          with e -> report_mismatch "driver" (Printexc.to_string e) "")
+        end else
         (try
           let pre = build_state ~switch:!switch ~listeners:!listeners !pre_lines in
           let op = parse_op op_line (List.rev !orc) in
@@ -72,7 +89,7 @@ let () =
             let fails = Checks.run ~pre ~op ~iclass ~xfers:pxs ~trace:phs ~post:post_impl ~gen:!gen ~fault:!fault in
             List.iter (fun (prop, checker, detail) ->
               incr checkfails;
-              Printf.printf "CHECK hist=%s step=%d prop=%s checker=%s op=[%s] detail=[%s] %s\n" !hist !step_no prop checker op_line detail !hist_meta) fails;
+              Printf.printf "CHECK hist=%s step=%d prop=%s checker=%s op=[%s] detail=[%s] %s\n" !hist !step_no prop checker op_line (detail ^ " res=" ^ iclass ^ " " ^ idetail) !hist_meta) fails;
             let tags = Checks.nontrivial ~pre ~op ~iclass ~xfers:pxs ~trace:phs ~post:post_impl ~fault:!fault in
             List.iter (fun k -> bump ("nt." ^ k)) tags;
             Printf.printf "TAGS hist=%s step=%d %s\n" !hist !step_no (String.concat "," tags))
@@ -91,7 +108,7 @@ let () =
         listeners := []; step_no := 0; cur_op := None; cur_st := []; pre_lines := []
       end
       else if starts_with "OP " l then begin
-        cur_op := Some l; orc := []; res := ("", ""); xs := []; hs := []; gen := ""; fault := false
+        cur_op := Some l; orc := []; res := ("", ""); xs := []; hs := []; gen := ""; fault := false; qr := []
       end
       else if starts_with "ORC " l then orc := parse_orc l :: !orc
       else if starts_with "RES " l then begin
@@ -103,6 +120,7 @@ let () =
       else if starts_with "H " l then hs := l :: !hs
       else if starts_with "GEN " l then gen := String.sub l 13 1
       else if starts_with "FAULT " l then fault := true
+      else if starts_with "QR " l then qr := l :: !qr
       else if l = "END" then begin
         process ();
         if !cur_op <> None then incr step_no;
